@@ -49,7 +49,7 @@ WRITER_API = ('__init__', 'new_change', 'new_file', 'write_preamble',
 
 
 def make_engine(stub_writer=False, stats_stubs=False, trace_writer=False,
-                list_reader=False):
+                list_reader=False, hunks=False):
     from contracts import writer as W, text_utils as T
     eng = verify.Engine()
     eng.inline_all_repo = True
@@ -336,8 +336,12 @@ def _run_one(sc):
     name, src, clauses, allowed = sc[:4]
     try:
         eng = make_engine(**(sc[4] if len(sc) > 4 else {}))
+        kw = {}
+        if len(sc) > 4 and sc[4].get('hunks'):
+            kw['extra_modules'] = ('pydiffx.errors', 'io',
+                                   'pydiffx.utils.unified_diffs')
         v = scenario.run_scenario(eng, name, MOD, src, clauses,
-                                  allowed=allowed, max_paths=4000)
+                                  allowed=allowed, max_paths=6000, **kw)
         recs = [ObRec(o) for o in v.obligations]
         return {'name': name, 'undecided': v.undecided, 'paths': v.paths,
                 'exit_kinds': v.exit_kinds, 'obligations': recs,
@@ -882,4 +886,186 @@ def c06_scenarios(tier):
     for shape in shapes:
         out.append(scenario_for(shape, 'c06.reader_tree.%s' % (
             'x'.join(map(str, shape)) or 'empty')))
+    return out
+
+
+# --- C14: implementation == specification on short line lists -------------
+# The hunk parser and an independent specification (a fold over line classes,
+# written here in the driver) are executed on the SAME list of symbolic lines;
+# every observable of the result must agree.  Unbounded in the contents of
+# the lines, bounded in their number.
+HUNK_SPEC = '''
+HRE = UNIFIED_DIFF_HUNK_HEADER_RE
+s_hunks = []
+s_open = None
+s_del = 0
+s_ins = 0
+s_err = None
+s_stop = None
+k = 0
+for line in lines:
+    k += 1
+    if s_err is not None or s_stop is not None:
+        continue
+    cls = 'garbage'
+    m = None
+    if line.startswith(b'@@'):
+        m = HRE.match(line)
+        if m:
+            cls = 'header'
+    elif s_open is not None:
+        if line.startswith(b'-'):
+            cls = 'del'
+        elif line.startswith(b'+'):
+            cls = 'ins'
+        elif line.startswith(b' '):
+            cls = 'ctx'
+        elif line.strip() == NO_NEWLINE_MARKER:
+            cls = 'marker'
+    if cls == 'header':
+        if s_open is not None:
+            s_err = k
+            continue
+        s_open = {'on': int(m.group('orig_num_lines') or '1'),
+                  'mn': int(m.group('modified_num_lines') or '1'),
+                  'os': int(m.group('orig_start')) - 1,
+                  'ms': int(m.group('modified_start')) - 1,
+                  'oi': 0, 'mi': 0, 'ofirst': None, 'olast': None,
+                  'mfirst': None, 'mlast': None, 'oc': 0, 'mc': 0,
+                  'context': m.group('context')}
+    elif cls == 'garbage':
+        if s_open is not None:
+            s_err = k
+            continue
+        if not IG:
+            s_stop = k - 1
+            continue
+    elif cls == 'del':
+        if s_open['ofirst'] is None:
+            s_open['ofirst'] = s_open['os'] + s_open['oi']
+        s_open['olast'] = s_open['os'] + s_open['oi']
+        s_open['oc'] = s_open['oc'] + 1
+        s_open['oi'] = s_open['oi'] + 1
+        s_del += 1
+    elif cls == 'ins':
+        if s_open['mfirst'] is None:
+            s_open['mfirst'] = s_open['ms'] + s_open['mi']
+        s_open['mlast'] = s_open['ms'] + s_open['mi']
+        s_open['mc'] = s_open['mc'] + 1
+        s_open['mi'] = s_open['mi'] + 1
+        s_ins += 1
+    elif cls == 'ctx':
+        s_open['oi'] = s_open['oi'] + 1
+        s_open['mi'] = s_open['mi'] + 1
+    if s_open is not None and s_open['oi'] >= s_open['on'] and \\
+            s_open['mi'] >= s_open['mn']:
+        # context before the first / after the last change: the smaller of
+        # the two sides that have changes, 0 if neither has
+        o_has = s_open['ofirst'] is not None
+        m_has = s_open['mfirst'] is not None
+        o_pre = (s_open['ofirst'] - s_open['os']) if o_has else 0
+        m_pre = (s_open['mfirst'] - s_open['ms']) if m_has else 0
+        o_post = (s_open['on'] - (s_open['olast'] - s_open['os'] + 1)) \\
+            if o_has else 0
+        m_post = (s_open['mn'] - (s_open['mlast'] - s_open['ms'] + 1)) \\
+            if m_has else 0
+        if o_has and m_has:
+            s_open['pre'] = min(o_pre, m_pre)
+            s_open['post'] = min(o_post, m_post)
+        elif o_has:
+            s_open['pre'] = o_pre
+            s_open['post'] = o_post
+        elif m_has:
+            s_open['pre'] = m_pre
+            s_open['post'] = m_post
+        else:
+            s_open['pre'] = 0
+            s_open['post'] = 0
+        s_hunks.append(s_open)
+        s_open = None
+if s_err is None and s_open is not None:
+    s_err = len(lines)
+if s_err is not None:
+    s_out = ('malformed', s_err)
+else:
+    s_out = ('ok', s_stop if s_stop is not None else len(lines), s_del,
+             s_ins, len(s_hunks))
+'''
+
+HUNK_IMPL = '''
+try:
+    r = get_unified_diff_hunks(lines, ignore_garbage=IG)
+    out = ('ok', r['num_processed_lines'], r['total_deletes'],
+           r['total_inserts'], len(r['hunks']))
+    hs = r['hunks']
+except MalformedHunkError as e:
+    out = ('malformed', e.line_num)
+    hs = []
+'''
+
+
+def c14_scenarios(tier):
+    """n symbolic lines; for n >= 2 the input space is PARTITIONED by the
+    first byte(s) of every line (exhaustive, mutually exclusive ASSUMEs) so
+    that the parts run in parallel."""
+    import itertools
+    out = []
+    nmax = 2 if tier == 'quick' else 3
+    first = [("lines[%d].startswith(b'@@') and "
+              "bool_of(UNIFIED_DIFF_HUNK_HEADER_RE.match(lines[%d]))", 'M'),
+             ("lines[%d].startswith(b'@@') and not "
+              "bool_of(UNIFIED_DIFF_HUNK_HEADER_RE.match(lines[%d]))", 'N'),
+             ("not lines[%d].startswith(b'@@')", 'x')]
+    later = first[:2] + [
+             ("lines[%d].startswith(b'-')", 'd'),
+             ("lines[%d].startswith(b'+')", 'i'),
+             ("lines[%d].startswith(b' ')", 'c'),
+             ("not lines[%d].startswith(b'@@') and "
+              "not lines[%d].startswith(b'-') and "
+              "not lines[%d].startswith(b'+') and "
+              "not lines[%d].startswith(b' ')", 'o'),
+    ]
+    for n in range(1, nmax + 1):
+        parts = [()] if n == 1 else list(itertools.product(
+            *([first] + [later] * (n - 1))))
+        # ignore_garbage is symbolic too: the paths fork on it only where
+        # the parser reads it
+        for ig in ('SYM_INT() > 0',):
+            for part in parts:
+                assumes = ''.join(
+                    'ASSUME(%s)\n' % (c.replace('%d', str(j)))
+                    for j, (c, _t) in enumerate(part))
+                tag = ''.join(t for _c, t in part) or 'all'
+                src = ('IG = %s\nlines = [%s]\n' % (ig, ', '.join(
+                    'SYM_BYTES()' for _ in range(n)))) + assumes + \
+                    HUNK_IMPL + HUNK_SPEC
+                clauses = [('verdict_totals_processed', 'out == s_out'),
+                           ('hunk_count', 'len(hs) == (len(s_hunks) if '
+                                          's_err is None else 0)')]
+                for j in range(n):
+                    g = ('s_err is None and len(s_hunks) > %d and '
+                         'len(hs) > %d' % (j, j))
+                    for side, pre in (('orig', 'o'), ('modified', 'm')):
+                        for fld, sf in (('start_line', 's'),
+                                        ('num_lines', 'n'),
+                                        ('num_lines_changed', 'c'),
+                                        ('first_changed_line', 'first'),
+                                        ('last_changed_line', 'last')):
+                            clauses.append((
+                                'hunk%d.%s.%s' % (j, side, fld),
+                                "(same_value(hs[%d]['%s']['%s'], "
+                                "s_hunks[%d]['%s%s']) if (%s) else True)"
+                                % (j, side, fld, j, pre, sf, g)))
+                    for fld, sf in (('lines_of_context_pre', 'pre'),
+                                    ('lines_of_context_post', 'post'),
+                                    ('context', 'context')):
+                        clauses.append((
+                            'hunk%d.%s' % (j, fld),
+                            "(same_value(hs[%d]['%s'], s_hunks[%d]['%s']) "
+                            "if (%s) else True)" % (j, fld, j, sf, g)))
+                # (ValueError: CPython's int() refuses numerals of more
+                # than 4300 digits - the same explicit range condition as
+                # in the contract of the function)
+                out.append(('c14.equiv.n%d.%s' % (n, tag), src, clauses,
+                            (ValueError,), {'hunks': True}))
     return out
